@@ -403,6 +403,26 @@ fn seq_family(prop: &str) -> i32 {
         }
         scen.push(stats_json(&format!("{} salt0", crate::hist::Scenario::name(&sc)), &st));
     }
+    // slices bigger than a block (4 KiB slices, 512-byte blocks): partial slice writes, entries of one
+    // slice in different blocks, discards next to unflushed mappings
+    for kind in if thorough { vec!["data", "libfmt"] } else { vec!["data"] } {
+        let g = images::G12;
+        let img = images::initial_images(&g, &[kind]).remove(0);
+        let mut alpha = images::discard_alphabet_small(&g);
+        alpha.push(Op::Shrink);
+        qcow2_rs::verif::set_order_salt(0);
+        let mut sc = SeqScenario::new(img.clone(), cfg_of(&g, "alt"), g.cfg_small(), "alt", alpha, oracles.clone());
+        sc.full_sweep = false;
+        let lim = BfsLimits { depth: if thorough { 5 } else { 4 }, max_states: 3_000_000, deadline: deadline_in(if thorough { 300 } else { 12 }) };
+        let st = bfs(&sc, &lim, &mut viol);
+        states += st.states;
+        trans += st.transitions;
+        outcomes += st.distinct_outcomes;
+        if st.capped || st.depth_completed < st.depth_target {
+            all_complete = false;
+        }
+        scen.push(stats_json(&format!("{} (4 KiB slices) salt0", crate::hist::Scenario::name(&sc)), &st));
+    }
     // short L1 tables which have to be relocated: one whose full entry count (130) is no multiple of
     // the entries per block, one of two clusters
     for (img, gw, far) in [(crate::extra::short_l1_odd_image(), crate::extra::g9_wide(130), 129u64), (crate::extra::short_l1_two_image(), crate::extra::g9_wide(192), 191u64)] {
@@ -555,10 +575,18 @@ pub fn sched_curated(g: &Geo) -> Vec<(&'static str, &'static str, Vec<Op>, Vec<V
         ("discard-vs-realloc", "libfmt", vec![w(0, cs, 0x51), Op::Flush], vec![vec![Op::Discard { off: 0, len: cs }], vec![w(4 * cs, cs, 0x12), r(4 * cs, cs)]]),
         // three tasks on three slices with a 2-slice cache
         ("three-slices", "libfmt", vec![w(0, bs, 0x51), w(tb, bs, 0x52), Op::Flush], vec![vec![w(0, bs, 0x11)], vec![w(tb, bs, 0x12)], vec![w(2 * tb.min(g.vsize() / 2), bs, 0x13)]]),
+        // an idle dirty slice is evicted by a third-slice load; another task looks the slice up while its write-back is in flight
+        ("lookup-during-eviction-writeback", "libfmt", vec![w(0, cs, 0x51), w(tb, bs, 0x52)], vec![vec![w(2 * tb.min(g.vsize() / 4), bs, 0x11)], vec![r(0, cs)], vec![w(cs, cs, 0x12)]]),
+        ("lookup-during-eviction-writeback-2", "libfmt", vec![w(0, cs, 0x51)], vec![vec![w(tb, bs, 0x11), w(2 * tb.min(g.vsize() / 4), bs, 0x12)], vec![w(cs, cs, 0x13), r(0, 2 * cs)]]),
+        // a flush zeroes a new data cluster whose first writer is still busy mapping the next slice, a second writer of that cluster arrives
+        ("flush-zeroes-new-data-cluster-vs-second-writer", "libfmt", vec![], vec![vec![w(sl - cs, 2 * cs, 0x11)], vec![Op::Flush], vec![w(sl - cs, bs, 0x12)]]),
+        ("flush-zeroes-new-data-cluster-vs-reader", "libfmt", vec![w(tb, bs, 0x51)], vec![vec![w(sl - cs, 2 * cs, 0x11)], vec![Op::Flush], vec![r(sl - cs, cs)]]),
         // shrink vs writers
         ("shrink-vs-writers", "libfmt", vec![w(0, cs, 0x51)], vec![vec![Op::Shrink], vec![w(cs, cs, 0x11)], vec![w(tb, bs, 0x12)]]),
         // write dirtying metadata while a flush is in progress, then nothing else (C18)
         ("flush-vs-write-other-slice", "libfmt", vec![w(0, cs, 0x51), w(tb, cs, 0x52), Op::Flush, w(cs, cs, 0x53)], vec![vec![Op::Flush], vec![w(tb + cs, cs, 0x11)]]),
+        ("shrink-vs-write-other-slice", "libfmt", vec![w(0, cs, 0x51), w(tb, cs, 0x52), Op::Flush, w(cs, cs, 0x53)], vec![vec![Op::Shrink], vec![w(tb + cs, cs, 0x11)]]),
+        ("shrink-vs-discard-other-slice", "libfmt", vec![w(0, cs, 0x51), w(tb, cs, 0x52), Op::Flush, w(cs, cs, 0x53)], vec![vec![Op::Shrink], vec![Op::Discard { off: tb, len: cs }]]),
         ("flush-vs-discard", "libfmt", vec![w(0, cs, 0x51), w(tb, cs, 0x52), Op::Flush, w(cs, cs, 0x53)], vec![vec![Op::Flush], vec![Op::Discard { off: tb, len: cs }]]),
         // multi-cluster write vs sub-cluster write
         ("batch-vs-sub", "libfmt", vec![], vec![vec![w(0, 3 * cs, 0x11)], vec![w(cs, bs, 0x12)], vec![r(0, 2 * cs)]]),
@@ -623,6 +651,58 @@ pub fn growth_sched_scenarios() -> Vec<SchedScenario> {
     ];
     for (name, setup, tasks) in l1_scn {
         out.push(SchedScenario { name: name.into(), img: l1.clone(), cfg: g.cfg_small(), cfg_name: "small".into(), setup, tasks, fused: true });
+    }
+    out
+}
+
+/// all multisets of three single-operation tasks over a reduced menu that spreads over three L2
+/// slices of a 2-slice cache (eviction write-backs in flight while other tasks look slices up)
+pub fn triple_scenarios(g: &Geo, setups_filter: &[&str]) -> Vec<SchedScenario> {
+    let (cs, bs, tb) = (g.cs(), g.bs(), g.tb());
+    let w = |off: u64, len: u64, tag: u32| Op::Write { off, len: len as usize, tag };
+    let menu: Vec<(&str, Op)> = vec![
+        ("wX2", w(2 * cs, cs, 0x11)),
+        ("wT", w(tb, bs, 0x12)),
+        ("wU", w(2 * tb.min(g.vsize() / 4), bs, 0x13)),
+        ("dX", Op::Discard { off: 0, len: cs }),
+        ("rX", Op::Read { off: 0, len: (2 * cs) as usize }),
+        ("flush", Op::Flush),
+    ];
+    let cfg = cfg_of(g, "small");
+    let mut out = vec![];
+    for (sn, ik, setup) in sched_setups(g) {
+        if !setups_filter.contains(&sn) {
+            continue;
+        }
+        let img = sched_image(g, ik);
+        for i in 0..menu.len() {
+            for j in i..menu.len() {
+                for k in j..menu.len() {
+                    let ops = [&menu[i], &menu[j], &menu[k]];
+                    // at least two modifying operations, no operation three times
+                    if i == k || ops.iter().filter(|o| !matches!(o.1, Op::Read { .. })).count() < 2 {
+                        continue;
+                    }
+                    let mut tasks = vec![];
+                    for (n, (_, op)) in ops.iter().enumerate() {
+                        let mut op = (*op).clone();
+                        if let Op::Write { tag, .. } = &mut op {
+                            *tag += 0x20 * n as u32;
+                        }
+                        tasks.push(vec![op]);
+                    }
+                    out.push(SchedScenario {
+                        name: format!("triple:{}:{}||{}||{}", sn, ops[0].0, ops[1].0, ops[2].0),
+                        img: img.clone(),
+                        cfg: cfg.clone(),
+                        cfg_name: "small".into(),
+                        setup: setup.clone(),
+                        tasks,
+                        fused: true,
+                    });
+                }
+            }
+        }
     }
     out
 }
@@ -701,6 +781,12 @@ pub struct SchedSummary {
 
 /// explore a list of scenarios (in parallel, one scenario per worker) and judge every execution
 pub fn sched_explore(run: &Run, want: &[&str], scenarios: &[SchedScenario], bound: usize, per_scn_execs: u64, secs: u64) -> Result<SchedSummary, String> {
+    sched_explore_as(run, want, scenarios, bound, per_scn_execs, secs, None)
+}
+
+/// `relabel`: report the judged violations under this property (class prefixed with the judging
+/// oracle's id), for checks whose property includes concurrent behaviour of one feature
+pub fn sched_explore_as(run: &Run, want: &[&str], scenarios: &[SchedScenario], bound: usize, per_scn_execs: u64, secs: u64, relabel: Option<&str>) -> Result<SchedSummary, String> {
     let deadline = deadline_in(secs);
     let results: Vec<(String, Result<crate::sched::ExploreStats, String>, Vec<Violation>)> = scenarios
         .par_iter()
@@ -785,7 +871,14 @@ pub fn sched_explore(run: &Run, want: &[&str], scenarios: &[SchedScenario], boun
             }
             Err(e) => return Err(format!("{}: {}", desc, e)),
         }
-        run.add_all(viols.clone());
+        let mut viols = viols.clone();
+        if let Some(to) = relabel {
+            for v in viols.iter_mut() {
+                v.class = format!("{}:{}", v.prop, v.class);
+                v.prop = to.to_string();
+            }
+        }
+        run.add_all(viols);
     }
     if sum.min_bound == i64::MAX {
         sum.min_bound = -1;
@@ -832,6 +925,8 @@ pub fn sched_family(prop: &str) -> i32 {
         }
         scenarios.extend(unfused);
     }
+    // three concurrent calls over three slices of a 2-slice cache
+    scenarios.extend(triple_scenarios(&g, if thorough { &["Xdirty", "XYflushed", "XYcold"] } else { &["Xdirty"] }));
     // metadata growth racing other calls (slow executions: 2 MiB images): one of each kind in the quick tier
     scenarios.extend(growth_sched_scenarios().into_iter().filter(|s| thorough || s.name.ends_with("-vs-flush")));
     if let Ok(f) = std::env::var("QMC_ONLY") {
@@ -1324,9 +1419,31 @@ pub fn cow_check() -> i32 {
         }
     }
     run.add_all(viol);
+    // "leaves all other bytes equal to the source content, immediately": also for a reader or a
+    // second partial writer racing the copy - every schedule of the COW scenarios, judged by the
+    // linearizability oracle (reads see source or merged content, never anything else)
+    let cow_scn: Vec<SchedScenario> = {
+        let g = images::G10;
+        let mut v = sched_scenarios(&g, &["backing", "compressed"], &["small"], true);
+        v.retain(|s| s.name.starts_with("backing:") || s.name.starts_with("compressed:") || s.name.starts_with("cow-"));
+        v
+    };
+    let (b, per, secs) = if thorough { (3, 200_000, 400) } else { (2, 4_000, 15) };
+    let sched_json = match sched_explore_as(&run, &["C06", "C07"], &cow_scn, b, per, secs, Some("C10")) {
+        Ok(sum) => {
+            states += sum.steps;
+            trans += sum.steps;
+            json!({"scenarios": sum.total, "executions": sum.execs, "executor_steps": sum.steps, "scenarios_with_several_outcomes": sum.multi_outcome,
+                "min_deviation_bound_completed": sum.min_bound, "deviation_bound_target": b, "scenarios_exhausted": sum.exhausted_n, "samples": sum.samples})
+        }
+        Err(e) => {
+            eprintln!("machinery error: {}", e);
+            return 2;
+        }
+    };
     let cov = json!({
         "states": states, "transitions": trans, "traces_validated_against_impl": trans, "samples": samples,
-        "evaluations": trans, "distinct_nontrivial": outcomes,
+        "evaluations": trans, "distinct_nontrivial": outcomes, "concurrent_part": sched_json,
         "rule": "explicit-state BFS over histories of partial/straddling writes, reads, discards, flush and reopen over clusters provided by a backing chain (equal, shorter, longer, depth 2) or stored compressed (inside / ending on a host cluster boundary); oracles: reference disk sweep, reopen, strict checker (compressed run released exactly once), request log of every read-only device holds reads only",
         "exhaustive": all_complete,
         "scenarios": scen,
@@ -1562,7 +1679,8 @@ pub fn growth_check() -> i32 {
     let rb_alpha = vec![w(100 * cs, cs, 1), w(101 * cs, cs, 2), w(110 * cs, 3 * cs, 3), w(120 * cs, cs, 4), w(2 * tb, cs, 5), Op::Discard { off: 0, len: 2 * cs }, Op::Flush, Op::Sync, Op::Reopen];
     let rt_alpha = vec![w(8000 * cs, cs, 1), w(8001 * cs, cs, 2), w(8010 * cs, 3 * cs, 3), w(8100 * cs, cs, 4), w(139 * tb, cs, 5), Op::Discard { off: 0, len: 2 * cs }, Op::Flush, Op::Sync, Op::Reopen];
     let l1_alpha = vec![w(tb, cs, 1), w(64 * tb, cs, 2), w(65 * tb + cs, 2 * cs, 3), w(130 * tb, cs, 4), w(191 * tb, cs, 5), Op::Read { off: 64 * tb, len: cs as usize }, Op::Flush, Op::Sync, Op::Reopen];
-    let rb63_alpha = vec![w(8000 * cs, cs, 1), w(8001 * cs, cs, 2), w(8010 * cs, 3 * cs, 3), Op::Flush, Op::Sync, Op::Reopen];
+    // the 70-cluster write creates refcount block 63 and, without a flush in between, runs into the end of the refcount table
+    let rb63_alpha = vec![w(8000 * cs, cs, 1), w(8001 * cs, cs, 2), w(8010 * cs, 3 * cs, 3), w(8200 * cs, 70 * cs, 6), Op::Flush, Op::Sync, Op::Reopen];
     let plans: Vec<(ImageSet, Vec<Op>, usize, u64, bool)> = vec![
         (crate::extra::rb_edge_image(), rb_alpha, if thorough { 5 } else { 3 }, if thorough { 300 } else { 10 }, true),
         (crate::extra::rb63_edge_image(), rb63_alpha, if thorough { 4 } else { 3 }, if thorough { 300 } else { 10 }, false),
@@ -1590,6 +1708,8 @@ pub fn growth_check() -> i32 {
             ("content", Oracles { c01: true, c02: true, c03: true, c16: true, ..Default::default() }),
             ("crash", Oracles { c01: true, c04: true, c05: true, ..Default::default() }),
         ] {
+            // crash windows of a 70-cluster write hold > 2^14 images of 2 MiB each: content oracles only
+            let alpha: Vec<Op> = alpha.iter().filter(|o| oname != "crash" || !matches!(o, Op::Write { len, .. } if *len > 8 * 512)).cloned().collect();
             let mut sc = SeqScenario::new(img.clone(), g.cfg_small(), g.cfg_alt(), "small", alpha.clone(), oracles);
             sc.relabel = Some("C12".into());
             sc.relabel_all = true;
